@@ -38,6 +38,11 @@ pub struct RunCtx {
     /// logical time: cancel polls + progress calls + intercepted syscalls
     pub ticks: AtomicU64,
     pub observer: RwLock<Option<Arc<dyn Observer>>>,
+    /// number of ImmutableLeafs::new passes of the current build (seen through hook H3)
+    pub leaf_batches: AtomicU64,
+    /// passes that examined >= 200 candidates and were followed by another pass: cut by the memory hint
+    pub cut_batches: AtomicU64,
+    pub last_ordinal: AtomicU64,
 }
 
 impl RunCtx {
@@ -99,6 +104,13 @@ impl arroy::verif::Hooks for SimHooks {
     }
     fn canon_addr(&self, addr: usize, ordinal: usize, len: usize) -> usize {
         let Some(ctx) = active() else { return addr };
+        if ordinal == 0 {
+            ctx.leaf_batches.fetch_add(1, Ordering::SeqCst);
+            if ctx.last_ordinal.load(Ordering::SeqCst) >= 200 {
+                ctx.cut_batches.fetch_add(1, Ordering::SeqCst);
+            }
+        }
+        ctx.last_ordinal.store(ordinal as u64, Ordering::SeqCst);
         match ctx.placement {
             Placement::Dense => BASE + ordinal * len,
             Placement::Page => BASE + ordinal * 4096usize.max(len.next_multiple_of(4096)),
